@@ -25,7 +25,7 @@ ASSUMPTIONS = [
     'other-axis metadata and table type of the result are not constrained '
     'by the statement and are not compared',
 ]
-REQUIRED = ['concat_calls', 'branch_padding', 'branch_resort',
+REQUIRED = ['concat_calls', 'operand_list_reused', 'branch_padding', 'branch_resort',
             'branch_passthrough', 'non_disjoint_refused', 'via_biom_concat',
             'via_table_concat', 'single_table_arg', 'axis_sample',
             'axis_observation', 'k1', 'k2', 'k3plus']
@@ -131,7 +131,21 @@ def run_case(ctx, index):
             res = tables[0].concat(tables[1], axis=axis)
             ctx.count('single_table_arg')
         else:
-            res = tables[0].concat(list(tables[1:]), axis=axis)
+            others = list(tables[1:])
+            res = tables[0].concat(others, axis=axis)
+            # the caller's list of operands is an input too: it must come
+            # back as it went in, and be reusable for the same call
+            if len(others) != k - 1 or any(a is not b for a, b in
+                                           zip(others, tables[1:])):
+                raise Violation('C10/operand-list-modified', 'the list passed'
+                                ' to concat now has %d entries (had %d); '
+                                'case=%r' % (len(others), k - 1, desc))
+            if index % 3 == 0:
+                res2 = tables[0].concat(others, axis=axis)
+                if snap.diff(snap.snap(res2), snap.snap(res)):
+                    raise Violation('C10/second-call-differs', 'case=%r' %
+                                    (desc,))
+                ctx.count('operand_list_reused')
         ctx.count('via_table_concat')
     ctx.count('concat_calls')
     s = snap.snap(res)
